@@ -62,13 +62,6 @@ structure MGhost where
   /-- the connection would have been closed already (an error / panic was returned, or `close` was called) -/
   dead : Bool := false
   lastPer : Nat := 0
-  /-- largest sequence number seen in use for path probing -/
-  maxProbing : Nat := 0
-  /-- the sequence number that entered path probing most recently -/
-  lastProbing : Option Nat := none
-  prevProbing : List Nat := []
-  /-- sequence numbers retired by `RetireConnIDForPath` -/
-  pathRetired : List Nat := []
 deriving Repr
 
 /-- Ledger monitors for one manager operation.
